@@ -11,6 +11,10 @@ import (
 	"github.com/juev/hledger-lsp/internal/ast"
 )
 
+// maxAmountExponent bounds the decimal exponent of an amount (as written, e.g. 1E500,
+// or implied by its number of decimals).
+const maxAmountExponent = 1000
+
 type ParseError struct {
 	Message string
 	Pos     Position
@@ -355,6 +359,12 @@ func (p *Parser) parseAmount() *ast.Amount {
 	qty, err := decimal.NewFromString(numberStr)
 	if err != nil {
 		p.error("invalid number: %s", p.current.Value)
+		return nil
+	}
+	// Sums rescale to the smaller exponent: 1E99999999 would make every balance
+	// check, hover and completion materialise a power of ten with that many digits.
+	if exp := qty.Exponent(); exp > maxAmountExponent || exp < -maxAmountExponent {
+		p.error("invalid number: exponent out of range: %s", p.current.Value)
 		return nil
 	}
 	amount.Quantity = qty
